@@ -16,11 +16,11 @@ STRENGTHENED2 = {
  "C21-2": ("inconclusive (exit 2: the harness hung with the implementation)", "a call into the remote map that does not return within an hour of virtual time is now a violation (C21:caller-blocked-forever)"),
  "C06-2": ("MISSED", "added ConnectReordered: connection ids assigned in one order, registration in the other (overlapping handshakes)"),
  "C03-2": ("MISSED", "added the response HonestAsOther: a valid proof for identity j next to a header naming K"),
+ "C42-2": ("MISSED", "added the accept_0rtt dimension: the acceptor takes the connection through Incoming::accept().into_0rtt().handshake_completed()"),
  "C38-2": ("MISSED", "added schedules for a key without any earlier packet (first publish overlapping a lookup) and a pause point after a store miss in ZoneStore::resolve"),
 }
 STILL_MISSED = {
  "C04-2": "reordering after a queue overflow needs byte-level back-pressure released one frame at a time while the sender keeps sending; the StalledBurst operation (flush stall, then burst) does not reproduce that interleaving, and a credit-based variant was not finished in time",
- "C42-2": "after_handshake hooks skipped on the Accepting::into_0rtt path; the check only accepts through the ordinary path",
 }
 first = {}
 for l in open(f'{root}/notes/seed-results.txt'):
